@@ -3,6 +3,7 @@ package c17
 
 import (
 	"bytes"
+	"context"
 	"fmt"
 	"math"
 	"sync"
@@ -35,6 +36,8 @@ type tcase struct {
 	TotalBurst int
 	Latency    time.Duration
 	Conns      []connSpec
+	// BurstOnly: a burst size is configured and the rate is left at zero, so burst + 0 x T = burst bytes may ever pass
+	BurstOnly bool
 }
 
 func (tc tcase) effBurst() int {
@@ -85,8 +88,31 @@ func cost(cs connSpec, batchCap int) int {
 	return reads * batch
 }
 
+func genBurstOnly(t *rapid.T) tcase {
+	tc := tcase{BurstOnly: true}
+	which := rapid.IntRange(0, 2).Draw(t, "burstOnlyKind") // 0 per-connection, 1 total, 2 both
+	bursts := []int{1, 7, 100, 1500, 4096}
+	if which != 1 {
+		tc.Burst = bursts[rapid.IntRange(0, 4).Draw(t, "burst")]
+	}
+	if which != 0 {
+		tc.TotalBurst = bursts[rapid.IntRange(0, 4).Draw(t, "totalBurst")]
+	}
+	n := rapid.IntRange(1, 4).Draw(t, "nconns")
+	for i := 0; i < n; i++ {
+		tc.Conns = append(tc.Conns, connSpec{
+			Size:    rapid.IntRange(0, 3*max(tc.Burst, tc.TotalBurst)+10).Draw(t, "size"),
+			ReadBuf: []int{1, 2, 100, 1500, 4096}[rapid.IntRange(0, 4).Draw(t, "readBuf")],
+		})
+	}
+	return tc
+}
+
 func genCase(t *rapid.T) tcase {
 	var tc tcase
+	if rapid.IntRange(0, 9).Draw(t, "burstOnly") == 0 {
+		return genBurstOnly(t)
+	}
 	kind := rapid.IntRange(0, 3).Draw(t, "limitKind") // 0 per-connection, 1 total, 2 both, 3 latency only
 	if kind == 0 || kind == 2 {
 		tc.Rate = logRate(t, "rate")
@@ -168,7 +194,106 @@ func genCase(t *rapid.T) tcase {
 	return tc
 }
 
+// runBurstOnly: with a burst size and no rate the bound burst + rate x T is the burst itself, at every T. Nothing more
+// can ever pass, so the connections are cancelled after a short while (any moment is as good as another for a bound
+// that holds at all times) and what they pulled from their clients is compared with the burst sizes.
+func runBurstOnly(t hx.TB, tc tcase, class string) {
+	th := rx.H("throttle")
+	if tc.Burst > 0 {
+		th["read_burst_size"] = tc.Burst
+	}
+	if tc.TotalBurst > 0 {
+		th["total_read_burst_size"] = tc.TotalBurst
+	}
+	rl, err := rx.Routes(rx.BareCtx(), []rx.R{{Handle: []map[string]any{th, rx.H("verif_term", "id", "R")}}})
+	if err != nil {
+		t.Fatalf("provision: %v", err)
+	}
+	shared := rx.Compile(rl, time.Second, false)
+	type res struct {
+		under  *hx.ScriptConn
+		stream []byte
+		data   []byte
+	}
+	results := make([]*res, len(tc.Conns))
+	var cancels []context.CancelFunc
+	var wg sync.WaitGroup
+	for i, cs := range tc.Conns {
+		cs := cs
+		r := &res{stream: hx.Stream(uint64(i)*31+uint64(cs.Size), cs.Size)}
+		r.under = hx.NewScriptConn([][]byte{r.stream}, hx.EndEOF)
+		r.under.LogReads = true
+		results[i] = r
+		cx := layer4.WrapConnection(r.under, make([]byte, 0, 2048), zap.NewNop())
+		ctx, cancel := context.WithCancel(cx.Context)
+		cx.Context = ctx
+		cancels = append(cancels, cancel)
+		tr := rx.NewTrace()
+		tr.ReadBuf = cs.ReadBuf
+		rx.Bind(cx, tr)
+		wg.Add(1)
+		go func() {
+			defer wg.Done()
+			_ = shared.Handle(cx)
+			for _, e := range tr.Snapshot() {
+				if e.ID == "R" {
+					r.data = e.Data
+				}
+			}
+		}()
+	}
+	done := make(chan struct{})
+	go func() { wg.Wait(); close(done) }()
+	select {
+	case <-done:
+	case <-time.After(25 * time.Millisecond):
+	}
+	for _, c := range cancels {
+		c()
+	}
+	select {
+	case <-done:
+	case <-time.After(20 * time.Second):
+		hx.Class("C17/timeout-skipped", 1)
+		return
+	}
+	desc := fmt.Sprintf("burst-only: burst=%d total_burst=%d (no rate configured) conns=%+v", tc.Burst, tc.TotalBurst, tc.Conns)
+	sum, over := 0, false
+	for i, r := range results {
+		pulled := 0
+		for _, ev := range r.under.ReadLog {
+			if ev.N > 0 {
+				pulled = ev.Cum
+			}
+		}
+		sum += pulled
+		if tc.Burst > 0 && pulled > tc.Burst {
+			hx.Fail(t, "C17", "per-connection-bound", "connection %d: %d bytes were read from the client; the burst is %d and the rate is zero, so no more than the burst may ever pass\n  %s", i, pulled, tc.Burst, desc)
+			return
+		}
+		if !bytes.HasPrefix(r.stream, r.data) {
+			hx.Fail(t, "C17", "stream-not-intact", "connection %d: the handler behind the throttle read %d bytes that are not a prefix of the client's stream; first difference at %d\n  %s", i, len(r.data), hx.FirstDiff(r.data, r.stream), desc)
+			return
+		}
+		if len(r.stream) > tc.Burst && tc.Burst > 0 || len(r.stream) > tc.TotalBurst && tc.TotalBurst > 0 {
+			over = true
+		}
+	}
+	if tc.TotalBurst > 0 && sum > tc.TotalBurst {
+		hx.Fail(t, "C17", "total-bound", "all connections together read %d bytes from their clients; the total burst is %d and the total rate is zero\n  %s", sum, tc.TotalBurst, desc)
+		return
+	}
+	hx.Case(hx.Hash(desc), over, "C17/"+class, "C17/burst-only")
+	if over {
+		hx.Sample("burst-only", map[string]any{"case": desc, "bytes_pulled": sum})
+	}
+}
+
 func runCase(t hx.TB, tc tcase, class string) {
+	if tc.BurstOnly {
+		runBurstOnly(t, tc, class)
+		return
+	}
 	th := rx.H("throttle")
 	if tc.Rate > 0 {
 		th["read_bytes_per_second"] = tc.Rate
